@@ -41,7 +41,7 @@ impl<T: RealNumber> DenseMatrix<T> {
         proof { T::ops_total(); }
 //@loop 1
             invariant self.wf(), sum == self.sum_to(i as int),
-//@before sum += self.values[i];
+//@loopbody 1
             proof { T::ops_total(); self.lemma_cell(i as int); }
 //@end
 
@@ -51,7 +51,7 @@ impl<T: RealNumber> DenseMatrix<T> {
         ensures max == self.max_to(self.nrows * self.ncols), //# max-fold-from-neg-infinity
 //@loop 1
             invariant self.wf(), max == self.max_to(i as int),
-//@before max = T::max(max, self.values[i]);
+//@loopbody 1
             proof { self.lemma_cell(i as int); }
 //@end
 
@@ -61,7 +61,7 @@ impl<T: RealNumber> DenseMatrix<T> {
         ensures min == self.min_to(self.nrows * self.ncols), //# min-fold-from-infinity
 //@loop 1
             invariant self.wf(), min == self.min_to(i as int),
-//@before min = T::min(min, self.values[i]);
+//@loopbody 1
             proof { self.lemma_cell(i as int); }
 //@end
 
@@ -74,7 +74,7 @@ impl<T: RealNumber> DenseMatrix<T> {
 //@loop 1
             invariant self.wf(), other.wf(), self.nrows == other.nrows, self.ncols == other.ncols,
                 max_diff == self.max_diff_to(other, i as int),
-//@before max_diff = max_diff.max((self.values[i] - other.values[i]).abs());
+//@loopbody 1
             proof { T::ops_total(); self.lemma_cell(i as int); other.lemma_cell(i as int); }
 //@end
 
@@ -86,7 +86,7 @@ impl<T: RealNumber> DenseMatrix<T> {
         proof { T::ops_total(); }
 //@loop 1
             invariant self.wf(), VERUS_ghost_iter.index@ <= self.values.len(), norm == self.sumsq_to(VERUS_ghost_iter.index@ as int),
-//@before norm += *xi * *xi;
+//@loopbody 1
             proof { T::ops_total(); self.lemma_cell(VERUS_ghost_iter.index@ as int); assert(*xi == self.values[VERUS_ghost_iter.index@ as int]); }
 //@end
 
@@ -106,7 +106,7 @@ impl<T: RealNumber> DenseMatrix<T> {
                 invariant self.wf(), other.wf(), self.ncols == other.ncols, self.nrows == other.nrows, c < self.ncols,
                     forall|r2: int, c2: int| 0 <= r2 < self.nrows && 0 <= c2 < c ==> Self::close(self.at(r2, c2), other.at(r2, c2), error),
                     forall|r2: int| 0 <= r2 < r ==> Self::close(self.at(r2, c as int), other.at(r2, c as int), error),
-//@before if (self.get(r, c) - other.get(r, c)).abs() > error {
+//@loopbody 2
                 proof { T::ops_total(); }
 //@end
 }
@@ -124,10 +124,8 @@ impl<T: RealNumber> DenseMatrix<T> {
 //@loop 1
             invariant self.wf(), other.wf(), self.ncols == other.ncols, self.nrows == other.nrows, len == self.values.len(), len == other.values.len(),
                 forall|k: int| 0 <= k < i ==> Self::close(self.values[k], other.values[k], T::epsilon_spec()),
-//@before if (self.values[i] - other.values[i]).abs() > T::epsilon() {
-            proof { T::ops_total(); }
-//@before return false; ##3
-                proof { self.lemma_cell(i as int); other.lemma_cell(i as int); }
+//@loopbody 1
+            proof { T::ops_total(); self.lemma_cell(i as int); other.lemma_cell(i as int); }
 //@tail
         proof {
             assert forall|r: int, c: int| 0 <= r < self.nrows && 0 <= c < self.ncols implies Self::close(self.at(r, c), other.at(r, c), T::epsilon_spec()) by {
